@@ -87,7 +87,10 @@ func (cdb *CachedDatabase) CleanupExpiredCache() map[string]int {
 func (cdb *CachedDatabase) UpdateDatabase(commands []Command) {
 	cdb.Database.Commands = commands
 	cdb.Database.BuildUniversalIndex() // Rebuild universal index
-	cdb.InvalidateCache()              // Invalidate cache when database is updated
+	if cdb.Database.tfidf != nil {
+		cdb.Database.buildTFIDFSearcher() // ...and the TF-IDF re-ranker built from the old commands
+	}
+	cdb.InvalidateCache() // Invalidate cache when database is updated
 }
 
 // SearchWithPipelineOptionsAndCache performs pipeline search with caching
